@@ -4,6 +4,10 @@ import json, os, subprocess
 ROOT = os.path.dirname(os.path.dirname(os.path.abspath(__file__)))
 
 CHECKS = {
+    "C15": dict(level="model_checking", design="DESIGN.md section 5 C15",
+                technique="TLC model checking of the REAL generated instruction lists with an abstract VM (VMAbs.tla) + TLA+ monitor (StackMon.tla) over the hook's depth vectors",
+                text="The instruction list the real generator produced for every accepted program (C01/C03/C04/C05/C06 families and every program text embedded in the repository's tests and fixtures) is exported and TLC explores its control-flow graph path by path with an abstract VM that keeps only stack depths, pending returns and pending GOSUBs: static well-formedness (targets resolved and in range, labels once, procedures closed under branches, main ends in Halt and procedures in PopRet, statement addresses ascending), no underflow, no depth beyond a bound (growth with the iteration count), clean state at the final Halt. Every (statement boundary, context, depths relative to the activation) TLC reaches - and every one the hook recorded in the real runs - goes through StackMon.tla: a boundary in a context has one depth vector and empty variable-path / by-ref / argument stacks.",
+                note="Trusted: Debug rendering of instructions -> opcode records, the opcode effect table (cross-checked against the effects observed through the hook: drift list in the evidence), TLC. Error edges are not explored statically; runs with handled errors are covered by the dynamic monitor. Call depth <= 3, depth bound 10."),
     "C12": dict(level="model_checking", design="DESIGN.md section 5 C12",
                 technique="TLC model checking that the kinding rules (Types.tla) are sound w.r.t. Values.tla + TLC validation of the real checker's verdicts and the real runs' outcomes",
                 text="D: for every expression of depth <= 2 over typed leaves TLC shows that an expression the kinding rules accept never evaluates to Type mismatch in Values.tla and that its result has the predicted kind. V: every depth-1 expression (10 binary and 2 unary operators, parentheses, 10 built-ins, subscripts over 6 typed leaves) and seeded depth-2 compositions are placed at 18 syntactic positions (assignment, parentheses, PRINT list, user function argument, subscript, CASE list, unary/binary operand, built-in argument, IF condition, FOR bound, nested call arguments); TLC checks that an ill-kinded statement is rejected as a type error in that statement and that an accepted statement never ends in error 13 or a wrong-kind panic when run; six kinds of single ill-forming edit (string operand, missing label, argument count, by-reference type, duplicate definition, NEXT for the wrong counter) applied to accepted programs must be rejected with the matching family located in the edited statement; consistent renaming must not change the verdict class.",
